@@ -65,13 +65,9 @@ def tag_rules(F, rep, tag, gen, rule="R-TAG"):
             else:
                 rep.ok(rule, ik, symx.show(e), cfg=tag)
                 rep.sample({"rule": rule, "function": b["key"], "stored_word": symx.show(e)}) if tag == "default" else None
-    # ------------------------------------------------------------- R-TAG: test
-    first_of = {}
-    for b in F.method("ArcUnion", "is_first"):
-        B = cfg.Body(b)
-        ds = B.defs().get(0, [])
-        e = symx.local_expr(F, B, 0, 0)
-        ok = True
+    # ------------------------------------------------------------- R-TAG: test (evaluated, whatever the control flow looks like)
+    def judge_pred(b, want_first, label):
+        e = symx.fn_value(F, b)
         wit = None
         for aa in ALIGNS:
             for ab in ALIGNS:
@@ -82,81 +78,86 @@ def tag_rules(F, rep, tag, gen, rule="R-TAG"):
                     for tagbit in (0, 1):
                         w = P | tagbit
                         v = symx.eval_int(e, union_word_leaf(w, al), bits)
-                        if v is None or bool(v) != (tagbit == 0):
-                            ok = False
-                            wit = wit or (aa, ab, w, v)
+                        if (v is None or bool(v) != ((tagbit == 0) == want_first)) and wit is None:
+                            wit = (aa, ab, w, v)
         ik = b["key"] + "/test"
-        if ok:
-            rep.ok(rule, ik, symx.show(e), cfg=tag)
-            first_of[b["key"]] = True
+        if wit is None:
+            rep.ok(rule, ik, symx.show(e)[:200], cfg=tag)
         else:
             aa, ab, w, v = wit
-            rep.bad(rule, ik, "is_first must answer `word & 1 == 0` for every pair of payload types; it computes %s, which for payload alignments (%s: %d, %s: %d) and the stored word %#x answers %s" % (symx.show(e), gen[0], aa, gen[1], ab, w, "cannot be evaluated" if v is None else bool(v)), F.loc(b), tag)
+            rep.bad(rule, ik, "%s must answer `word & 1 %s 0` for every pair of payload types; it computes %s, which for payload alignments (%s: %d, %s: %d) and the stored word %#x answers %s" % (label, "==" if want_first else "!=", symx.show(e)[:300], gen[0], aa, gen[1], ab, w, "cannot be evaluated" if v is None else bool(v)), F.loc(b), tag)
+
+    for b in F.method("ArcUnion", "is_first"):
+        judge_pred(b, True, "is_first")
     for b in F.method("ArcUnion", "is_second"):
-        B = cfg.Body(b)
-        c = B.condition({"mv": {"l": 0, "p": []}})
-        good = bool(c and "call" in c and c["neg"] and atomics.callee_of(c["call"]) in first_of)
-        if good:
-            rep.ok(rule, b["key"] + "/test", cfg=tag)
-        else:
-            rep.bad(rule, b["key"] + "/test", "is_second is not the negation of is_first", F.loc(b), tag)
-    # ------------------------------------------------------------- R-TAG: borrow (test + strip)
+        judge_pred(b, False, "is_second")
+    # ------------------------------------------------------------- R-TAG: borrow (variant chosen by the tag, tag stripped)
     for b in F.method("ArcUnion", "borrow"):
-        B = cfg.Body(b)
-        aggs = []
-        for bi, bl in enumerate(b["blocks"]):
-            for s in bl["stmts"]:
-                if s["k"] == "assign" and s["rv"]["k"] == "agg" and s["rv"].get("adt") == F.handle_paths.get("ArcUnionBorrow"):
-                    aggs.append((bi, s))
-        sw = None
-        for bi, bl in enumerate(b["blocks"]):
-            tt = bl["term"]
-            if tt["k"] == "switch":
-                c = B.condition(tt["discr"])
-                if c and "call" in c and atomics.callee_of(c["call"]) in first_of:
-                    sw = (bi, tt, c)
-        if sw is None or len(aggs) != 2:
-            rep.bad(rule, b["key"] + "/strip", "borrow does not branch on is_first into the two variants", F.loc(b), tag)
-            continue
-        bi, tt, c = sw
-        truth = {tgt: (tv != c["neg"]) for tgt, tv in B.switch_truth(tt).items()}
+        e = symx.fn_value(F, b)
         good = True
         why = None
-        for abi, s in aggs:
-            variant = s["rv"]["variant"]
-            # which edge reaches this aggregate
-            edge_first = [is_first for tgt, is_first in truth.items() if abi in B.reach(tgt, normal_only=True)]
-            if len(edge_first) != 1:
-                good, why = False, "variant %s is built on both edges of the test" % variant
-                continue
-            is_first = edge_first[0]
-            if (variant == "First") != is_first:
-                good, why = False, "variant %s is built on the edge where the tag says %s" % (variant, "first" if is_first else "second")
-            e = symx.expr(F, B, s["rv"]["ops"][0])
-            calls = []
-            _collect_calls(e, calls)
-            fp = [x for x in calls if x[2] == "from_ptr"]
-            if len(fp) != 1:
-                good, why = False, "the borrow is not built by ArcBorrow::from_ptr"
-                continue
-            want_ty = gen[0] if variant == "First" else gen[1]
-            if not fp[0][4] or fp[0][4][0] != want_ty:
-                good, why = False, "variant %s borrows as type %s instead of %s" % (variant, fp[0][4], want_ty)
-            pe = fp[0][3][0]
-            for aa in ALIGNS:
-                for ab in ALIGNS:
-                    al = {gen[0]: aa, gen[1]: ab}
-                    for P in SAMPLES:
-                        if P % max(aa, ab, 8):
+        ub = F.handle_paths.get("ArcUnionBorrow")
+        for aa in ALIGNS:
+            for ab in ALIGNS:
+                al = {gen[0]: aa, gen[1]: ab}
+                for P in SAMPLES:
+                    if P % max(aa, ab, 8):
+                        continue
+                    for tagbit in (0, 1):
+                        if not good:
                             continue
-                        w = P | (0 if variant == "First" else 1)
-                        v = symx.eval_int(pe, union_word_leaf(w, al), bits)
-                        if v != P and good:
-                            good, why = False, "variant %s: the pointer handed to from_ptr is %s; for payload alignments (%s: %d, %s: %d) and the stored word %#x it yields %s instead of the payload address %#x (the tag bit must be stripped, and only it): the ArcBorrow's bits are then not the value's address" % (variant, symx.show(pe), gen[0], aa, gen[1], ab, w, hex(v) if v is not None else None, P)
+                        w = P | tagbit
+                        leaf = union_word_leaf(w, al)
+                        val = _select(e, leaf, bits)
+                        want = "First" if tagbit == 0 else "Second"
+                        if val is None or val[0] != "agg" or val[2] != ub:
+                            good, why = False, "for the stored word %#x the result cannot be determined (%s)" % (w, symx.show(e)[:200])
+                            continue
+                        if val[3] != want:
+                            good, why = False, "for the stored word %#x (tag bit %d) the borrow is built as variant %s instead of %s" % (w, tagbit, val[3], want)
+                            continue
+                        calls = []
+                        _collect_calls(val[4][0], calls)
+                        fp = [x for x in calls if x[2] == "from_ptr"]
+                        if len(fp) != 1:
+                            good, why = False, "the borrow is not built by ArcBorrow::from_ptr"
+                            continue
+                        want_ty = gen[0] if want == "First" else gen[1]
+                        if not fp[0][4] or fp[0][4][0] != want_ty:
+                            good, why = False, "variant %s borrows as type %s instead of %s" % (want, fp[0][4], want_ty)
+                            continue
+                        pe = fp[0][3][0]
+                        v = symx.eval_int(pe, leaf, bits)
+                        if v != P:
+                            good, why = False, "variant %s: the pointer handed to from_ptr is %s; for payload alignments (%s: %d, %s: %d) and the stored word %#x it yields %s instead of the payload address %#x (the tag bit must be stripped, and only it): the ArcBorrow's bits are then not the value's address" % (want, symx.show(pe)[:200], gen[0], aa, gen[1], ab, w, hex(v) if v is not None else None, P)
         if good:
             rep.ok(rule, b["key"] + "/strip", cfg=tag)
         else:
             rep.bad(rule, b["key"] + "/strip", why, F.loc(b), tag)
+
+
+def _select(e, leaf, bits):
+    """The value expression a `cases` summary selects for a leaf valuation (the expression itself if it is no summary)."""
+    for _ in range(6):
+        if e[0] != "cases":
+            return e
+        nxt = None
+        for conds, val in e[1]:
+            ok = True
+            for d, rel, v in conds:
+                x = symx.eval_int(d, leaf, bits)
+                if x is None:
+                    return None
+                if (rel == "eq" and x != v) or (rel == "notin" and x in v):
+                    ok = False
+                    break
+            if ok:
+                nxt = val
+                break
+        if nxt is None:
+            return None
+        e = nxt
+    return e
 
 
 def run(ctx, rep):
